@@ -4,17 +4,32 @@ from common import *
 import tlcout, cc
 
 
+def _fv(t):
+    s = set(t["sl"])
+    for c in t["ch"]:
+        s |= _fv(c["t"]) - set(c["bd"])
+    return s
+
+
+def plain_states(uni, states):
+    """indices of the states in which the SPECIFICATION derives no redundant slot and no symmetry for any pool term: there a flat
+    explanation (a chain of whole terms, to_flat_string) can spell every step; elsewhere it cannot (known finding D23)"""
+    nfv = [len(_fv(t)) for t in uni["terms"]]
+    return [i for i, s in enumerate(states) if all(x == 1 for x in s["syms"]) and all(len(s["slots"][j]) == nfv[j] for j in range(len(nfv)))]
+
+
 def run_c07(tier):
     t0 = time.time()
     prop = "C07"
     tables = cc.cc_tables(tier, prop)
     findings, summs, tstats, nproofs, nnodes, sample = [], [], {}, 0, 0, None
+    nflat = nflat_steps = nflat_deep = nflat_back = nflat_all = nflat_plain = 0
     rules_seen = {}
     maxpairs = 6 if tier == "quick" else 12
     for variant in (["expl"] if tier == "quick" else ["expl", "expl+checks"]):
         for u, (uni, tpath, st, states, upath) in tables.items():
             trace = os.path.join(OUT, "tlc", "%s_%s_%s.ndjson" % (prop, u, variant.replace("+", "_")))
-            recs = jsonl(run_bin(variant, "ex_record", [upath, tpath, trace, maxpairs]))
+            recs = jsonl(run_bin(variant, "ex_record", [upath, tpath, trace, maxpairs], env={"VERIF_FLAT_PLAIN": json.dumps(plain_states(uni, states))}))
             summ = [r for r in recs if r["kind"] == "summary"][0]
             for r in recs:
                 if r["kind"] == "finding" and r["prop"] in ("*", prop):
@@ -38,6 +53,8 @@ def run_c07(tier):
             lines = open(trace).read().splitlines()
             for l in lines:
                 e = json.loads(l)
+                if e["ev"] != "proof":
+                    continue
                 nproofs += 1
                 nnodes += len(e["dag"])
                 for nd in e["dag"]:
@@ -57,6 +74,33 @@ def run_c07(tier):
                                      "what": "proof step is not a correct use of its rule" if b["verdict"] == "step" else "proof does not conclude the queried equation",
                                      "detail": {"asserted": eqs, "query": e["query"], "bad_nodes": bad_nodes,
                                                 "premises": [e["dag"][p - 1] for nd in bad_nodes for p in nd["prem"]][:4]}})
+            for b in tlcout.tagged_lines(logp, "FLATBAD"):
+                e = json.loads(lines[b["i"] - 1])
+                eqs = ["%s = %s [%s]" % (json.dumps(a["a"]), json.dumps(a["b"]), a["j"]) for a in e["asserted"]]
+                what = {"panic": "to_flat_string panics", "hang": "to_flat_string does not terminate", "unreadable": "flat explanation is not a chain of terms with one rewrite marker per line",
+                        "step": "flat explanation: a step is not an application of the named equation at the marked position",
+                        "conclusion": "flat explanation does not lead from the queried left side to the queried right side"}[b["verdict"]]
+                site = ""
+                if b["verdict"] == "panic" and " at " in e["flat_msg"]:
+                    site = e["flat_msg"].rsplit(" at ", 1)[1]
+                    site = site[site.index("src/"):] if "src/" in site else site
+                fl = e["flat"]
+                terms = [fl["start"]] + [st["dst"] for st in fl["steps"]]
+                bad = [{"step": i, "from": terms[i - 1], "to": terms[i], "pos": fl["steps"][i - 1]["pos"], "back": fl["steps"][i - 1]["back"],
+                        "just": fl["steps"][i - 1]["just"]} for i in b["steps"][:2]]
+                findings.append({"kind": "finding", "prop": prop, "site": site, "variant": variant, "universe": u, "what": what, "flat": True, "plain": e["plain"],
+                                 "detail": {"asserted": eqs, "query": e["query"], "msg": e["flat_msg"][:600], "bad_steps": bad,
+                                            "chain": terms if b["verdict"] == "conclusion" else None, "naming": e["naming"]}})
+            for l in lines:
+                e = json.loads(l)
+                if e["ev"] == "flat":
+                    nflat_all += 1
+                    nflat_plain += 1 if e["plain"] else 0
+                if e.get("flat_status") == "ok":
+                    nflat += 1
+                    nflat_steps += len(e["flat"]["steps"])
+                    nflat_deep += sum(1 for st in e["flat"]["steps"] if len(st["pos"]) >= 1)
+                    nflat_back += sum(1 for st in e["flat"]["steps"] if st["back"])
     if set(rules_seen) < {"explicit", "sym", "trans", "cong"}:
         raise ToolError("recorded proofs do not exercise all proof rules: %s" % rules_seen)
     cov = {"states": sum(t[2]["distinct"] for t in tables.values()) + sum(s["distinct"] for s in tstats.values()),
@@ -67,8 +111,13 @@ def run_c07(tier):
                    "namings); for up to %d equal pairs of pool terms per history explain_equivalence is called and the whole proof DAG re-checked node by "
                    "node by Proofs.tla (refl/sym/trans/cong up to renamings injective per side, explicit leaves = asserted equations with their "
                    "justification, conclusion = query up to injective renaming); non-trivial = transitivity and congruence nodes" % maxpairs,
-           "exhaustive": False, "proof_rules_seen": rules_seen, "recorder": summs, "tlc_trace": tstats,
+           "exhaustive": False, "proof_rules_seen": rules_seen,
+           "flat_explanations": {"recorded": nflat_all, "in_plain_states": nflat_plain, "chains_read": nflat, "steps": nflat_steps, "steps_below_the_root": nflat_deep, "backward_steps": nflat_back,
+                                 "rule": "to_flat_string of every recorded proof: every line after the first is read as the previous term with one subterm "
+                                         "rewritten; Proofs.tla (StepAt / FlatConcludes) checks that each step is an instance of the named asserted "
+                                         "equation at the marked position and that the chain leads from the queried left to the queried right side"}, "recorder": summs, "tlc_trace": tstats,
            "histories_aborted_by_build_panics": sum(s["histories_aborted_by_build_panics"] for s in summs)}
-    finish(prop, tier, t0, findings, cov, triggers={"explanations_and_checks_build": lambda f: f.get("variant") == "expl+checks"}, assumptions=[
+    finish(prop, tier, t0, findings, cov, triggers={"explanations_and_checks_build": lambda f: f.get("variant") == "expl+checks",
+                                                  "flat_explanation_in_a_state_with_redundant_slots_or_symmetries": lambda f: bool(f.get("flat")) and not f.get("plain")}, assumptions=[
         "terms of proof nodes are obtained with the public get_syn_expr; histories that panic while being built (D1/D2) are attributed to C08",
         "leaves from rule applications are not exercised yet (justified unions only)"])
